@@ -635,6 +635,180 @@ def check_params_stable(ctx: Ctx, rule: str = "R-PARAMS"):
     return n
 
 
+_SLOT_COLLAPSING = ("dict", "SortedDict", "OrderedDict", "set", "SortedSet", "frozenset", "defaultdict")
+
+
+def check_unitary_record(ctx: Ctx, rule: str, nb_units: bool = True):
+    """UnitaryAlignment is the record every alignment rule reads slots from: the n-tuple handed to the constructor / the n_tuple setter is the
+    one `n_tuple` returns (same slots, same order, nothing merged), and `nb_units` is the number of slots whose unit is not None *of the tuple
+    currently held*.  A store that routes the tuple through a mapping or a set keeps one slot per distinct key (recognised shape, wrong
+    slot); a cached nb_units that a writer of the tuple does not refresh is stale after that writer (recognised shape, wrong slot)."""
+    M = ctx.model
+    cls = M.classes.get("UnitaryAlignment")
+    if cls is None:
+        ctx.undecided(rule, None, None, "class UnitaryAlignment not found", construct="UnitaryAlignment", key="ua-record")
+        return
+    F = backing_field(M, "UnitaryAlignment", "n_tuple", "_n_tuple")
+    getter = M.find_getter(cls, "n_tuple")
+    if getter is not None:
+        ctx.functions_analysed.add(getter.qualname)
+        b = [s for s in getter.node.body if not (isinstance(s, ast.Expr) and isinstance(s.value, ast.Constant))]
+        ok = len(b) == 1 and isinstance(b[0], ast.Return) and norm(b[0].value) == f"{getter.self_name}.{F}"
+        if ok:
+            ctx.ok(rule, getter, b[0], f"n_tuple returns the stored tuple {F}", key="ua-record:getter")
+        else:
+            ctx.undecided(rule, getter, None, "UnitaryAlignment.n_tuple is not `return self.<field>` (not a verdict)", key="ua-record:getter", construct="n_tuple")
+    writers = []
+    for g in list(cls.methods.values()) + list(cls.setters.values()) + list(cls.getters.values()):
+        sn = g.self_name
+        if sn is None:
+            continue
+        for s in walk_no_nested(g.node):
+            tg = s.targets if isinstance(s, ast.Assign) else [s.target] if isinstance(s, (ast.AnnAssign, ast.AugAssign)) and getattr(s, "value", None) is not None else []
+            if any(norm(t) == f"{sn}.{F}" for t in tg):
+                writers.append((g, s))
+    if not any(g.name == "__init__" for g, _ in writers):
+        ctx.undecided(rule, None, None, f"UnitaryAlignment.__init__ does not store {F} (not a verdict)", construct="__init__", key="ua-record:init")
+    for g, s in writers:
+        ctx.functions_analysed.add(g.qualname)
+        params = set(g.params[1:])
+        v = expand_locals(g.node, s.value)
+        x = v
+        while isinstance(x, ast.Call) and dotted(x.func) in ("list", "tuple") and len(x.args) == 1 and not x.keywords:
+            x = x.args[0]
+        key = f"ua-record:store:{g.qualname}"
+        if isinstance(s, ast.AugAssign):
+            ctx.undecided(rule, g, s, f"{g.qualname}: the n-tuple is updated in place (not a verdict)", key=key)
+        elif isinstance(x, ast.Name) and x.id in params:
+            ctx.ok(rule, g, s, f"{g.qualname} stores the n-tuple it is given, slot for slot", key=key)
+        else:
+            through = sorted({dotted(c.func).split(".")[-1] for c in ast.walk(v) if isinstance(c, ast.Call) and dotted(c.func) and
+                              dotted(c.func).split(".")[-1] in _SLOT_COLLAPSING} | {"dict display" for c in ast.walk(v) if isinstance(c, (ast.Dict, ast.DictComp, ast.Set, ast.SetComp))})
+            if through and any(isinstance(n, ast.Name) and n.id in params for n in ast.walk(v)):
+                ctx.bad(rule, g, s, f"{g.qualname} stores the n-tuple after routing it through {', '.join(through)}: one slot per distinct key survives, so a tuple "
+                        f"holding the same annotator twice (what check() exists to reject) or the same element twice loses slots, and the order is the container's", key=key)
+            else:
+                ctx.undecided(rule, g, s, f"{g.qualname}: the stored n-tuple `{norm(v)}` is not the argument itself (not a verdict)", key=key)
+    if not nb_units:
+        return
+    nb = M.find_getter(cls, "nb_units")
+    if nb is None:
+        ctx.undecided(rule, None, None, "UnitaryAlignment.nb_units not found", construct="nb_units", key="accessor")
+        return
+    ctx.functions_analysed.add(nb.qualname)
+    b = [s for s in nb.node.body if not (isinstance(s, ast.Expr) and isinstance(s.value, ast.Constant))]
+    r = b[0].value if len(b) == 1 and isinstance(b[0], ast.Return) else None
+    sn = nb.self_name
+
+    def counting(e, tuple_names, g) -> Optional[bool]:
+        ci = count_if(e) if e is not None else None
+        if ci is None:
+            return None
+        return ci[0] in tuple_names and ci[1] == "E[1] is not None"
+
+    if isinstance(r, ast.Attribute) and norm(r.value) == sn and r.attr != F:
+        C = r.attr                # cached count: every writer of the tuple must refresh it with the count of the new tuple
+        for g, s in writers:
+            gsn = g.self_name
+            st = [x for x in walk_no_nested(g.node) if isinstance(x, (ast.Assign, ast.AnnAssign)) and getattr(x, "value", None) is not None and
+                  any(norm(t) == f"{gsn}.{C}" for t in (x.targets if isinstance(x, ast.Assign) else [x.target]))]
+            key = f"accessor:refresh:{g.qualname}"
+            if not st:
+                ctx.bad(rule, g, s, f"nb_units returns the cached {C}, and {g.qualname} replaces the n-tuple without refreshing it: after this writer nb_units is the count "
+                        f"of the previous tuple", key=key)
+                continue
+            names = {f"{gsn}.{F}", f"{gsn}.n_tuple"} | {norm(expand_locals(g.node, s.value))}
+            res = counting(expand_locals(g.node, st[-1].value), names, g)
+            if res is None:
+                ctx.undecided(rule, g, st[-1], f"{g.qualname}: {C} is not a recognised counting expression (not a verdict)", key=key)
+            else:
+                ctx.check(res, rule, g, st[-1], f"{g.qualname} refreshes {C} = number of slots of the new tuple whose unit is not None",
+                          bad_detail=f"{g.qualname} sets {C} to something else than the number of slots of the new tuple whose unit is not None", key=key)
+        return
+    res = counting(r, {f"{sn}.{F}", f"{sn}.n_tuple"}, nb)
+    if res is None:
+        ctx.undecided(rule, nb, r, "UnitaryAlignment.nb_units: not a recognised counting expression (not a verdict)", key="accessor")
+    else:
+        ci = count_if(r)
+        ctx.check(res, rule, nb, r, "UnitaryAlignment.nb_units counts the slots of the n-tuple whose unit is not None",
+                  bad_detail=f"UnitaryAlignment.nb_units counts the elements of `{ci[0]}` with `{ci[1]}` instead of the slots of the n-tuple whose unit is not None", key="accessor")
+
+
+def check_sampler_init(ctx: Ctx, rule: str):
+    """`sampler.init_sampling(continuum, ground_truth_annotators)` is a dispatched call: every implementation a sampler object can run must,
+    on every path that returns normally, record the reference and the ground-truth annotators *of this call* - the base class by storing both
+    fields, an override by reaching super().init_sampling with its own two parameters.  A normal return that skips it leaves the sampler
+    drawing from whatever an earlier call recorded."""
+    from ..cfg import CFG, EXIT
+    M = ctx.model
+    impls = M.dispatch("AbstractContinuumSampler", "init_sampling")
+    if not impls:
+        ctx.undecided(rule, None, None, "no implementation of AbstractContinuumSampler.init_sampling found", construct="init_sampling", key="sampler-init")
+        return
+    for f in impls:
+        ctx.functions_analysed.add(f.qualname)
+        sn = f.self_name
+        if len(f.params) < 3:
+            ctx.undecided(rule, f, None, f"{f.qualname}: (self, reference, ground_truth_annotators) expected", key=f"sampler-init:{f.qualname}", construct="init_sampling")
+            continue
+        p_ref, p_gt = f.params[1:3]
+        cfg = CFG(f.node)
+        if f.cls.name == "AbstractContinuumSampler":
+            groups = []
+            for fld, ok_value in (("_reference_continuum", lambda v: norm(v) == p_ref),
+                                  ("_ground_truth_annotators", lambda v: p_gt in {n.id for n in ast.walk(v) if isinstance(n, ast.Name)} or
+                                   norm(v) in (f"{sn}._reference_continuum.annotators", f"{p_ref}.annotators"))):
+                st = [s for s in walk_no_nested(f.node) if isinstance(s, ast.Assign) and norm(s.targets[0]) == f"{sn}.{fld}"]
+                good = [s for s in st if ok_value(s.value)]
+                if len(good) != len(st):
+                    ctx.undecided(rule, f, next(s for s in st if s not in good), f"{f.qualname}: a store into {fld} whose value is not derived from this call's argument (not a verdict)",
+                                  key=f"sampler-init:{fld}")
+                    groups = None
+                    break
+                groups.append((fld, [cfg.node_of(s) for s in st]))
+            if groups is None:
+                continue
+            for fld, nodes in groups:
+                ctx.check(bool(nodes) and cfg.must_pass(EXIT, [n for n in nodes if n is not None]), rule, f, None,
+                          f"every normal return of {f.qualname} has stored {fld} from this call's arguments",
+                          bad_detail=f"{f.qualname} can return normally without storing {fld}: the sampler keeps what an earlier call recorded",
+                          construct=fld, key=f"sampler-init:{fld}")
+        else:
+            sup = [s for s in walk_no_nested(f.node) if isinstance(s, ast.Expr) and isinstance(s.value, ast.Call) and norm(s.value.func) == "super().init_sampling"]
+            args_ok = [s for s in sup if [norm(a) for a in s.value.args] + [f"{k.arg}={norm(k.value)}" for k in s.value.keywords] in
+                       ([p_ref, p_gt], [p_ref, f"{M.fn('AbstractContinuumSampler.init_sampling', rule).params[2]}={p_gt}"])]
+            if len(args_ok) != len(sup):
+                ctx.undecided(rule, f, sup[0], f"{f.qualname}: super().init_sampling is not called with this call's (reference, ground truth) (not a verdict)",
+                              key=f"sampler-init:{f.qualname}")
+                continue
+            nodes = [cfg.node_of(s) for s in sup]
+            ctx.check(bool(nodes) and cfg.must_pass(EXIT, [n for n in nodes if n is not None]), rule, f, None,
+                      f"every normal return of {f.qualname} has passed super().init_sampling({p_ref}, {p_gt})",
+                      bad_detail=f"{f.qualname} can return normally without reaching super().init_sampling({p_ref}, {p_gt}): the reference and the ground-truth annotators of this "
+                                 f"call are not recorded and the sampler keeps drawing from what an earlier call left",
+                      construct="init_sampling", key=f"sampler-init:{f.qualname}")
+
+
+def check_overrides(ctx: Ctx, rule: str = "R-OVERRIDES"):
+    """closedness guard: a rule that analysed `Class.m` speaks for every call `obj.m(...)` only if no subclass replaces m with code the
+    rules did not look at.  An override of an analysed method that was itself not analysed is reported UNDECIDED (abstract methods are meant
+    to be overridden: their implementations are enumerated by the rules that need them)."""
+    M = ctx.model
+    n = 0
+    for qn in sorted(ctx.functions_analysed):
+        f = M.functions.get(qn)
+        if f is None or f.cls is None or isinstance(f.node, ast.Lambda) or "<locals>" in qn or f.abstract or f.name.startswith("__"):
+            continue
+        for sub in M.subclasses.get(f.cls.name, []):
+            g = sub.methods.get(f.name) or sub.getters.get(f.name) if hasattr(sub, "getters") else sub.methods.get(f.name)
+            if g is None or g.qualname in ctx.functions_analysed or g.abstract:
+                continue
+            n += 1
+            ctx.undecided(rule, g, None, f"{g.qualname} overrides {qn}, which the rules of this property analysed as *the* implementation: calls dispatched to "
+                          f"{sub.name} objects run code the rules did not look at (not a verdict)", construct=f"override of {f.name}", key=f"{g.qualname}")
+    return n
+
+
 KNOWN_DECORATORS = ("property", "staticmethod", "classmethod", "abc.abstractmethod", "abstractmethod", "numba.njit", "nb.njit")
 CACHING_DECORATORS = ("lru_cache", "cache", "cached_property", "memoize", "memoized", "cachedmethod", "cached")
 
